@@ -1,7 +1,7 @@
 """C17 - string function laws: the range-check clause (C17.R1)."""
 import re
 
-from .. import interval as iv, mir
+from .. import interval as iv, mir, tagflow as tf
 from ..core import CheckError
 from . import common
 
@@ -15,7 +15,7 @@ EXPLANATION = (
     "to usize on the success path is >= 0 resp. >= 1 and the other path builds IllegalFunctionCall; and "
     "one structural part of `counts clamped to the length`: (R3) the end of every substring range "
     "handed to str::get in the string built-ins is proved <= LEN(s); and one of `VAL(STR$(k)) = k`: (R4) "
-    "every numeric result VAL builds is negated exactly on the negative side of its sign test.")
+    "every numeric result VAL builds is negated exactly on the negative side of its sign test; (R5) UCASE$ / LCASE$ use the whole-string ASCII fold of the standard library, or their own character function maps all 128 ASCII characters as stated (evaluated per character).")
 NOT_DECIDED = [
     "LEFT$/RIGHT$/MID$ substring equations, INSTR minimality, LEN additivity, UCASE$/LCASE$/LTRIM$/RTRIM$ "
     "laws, SPACE$ = STRING$, VAL(STR$(k)) = k (value-level string arithmetic)",
@@ -285,9 +285,79 @@ def r4_val_sign(ctx, rule="C17.R4"):
     ctx.require(rule, 1)
 
 
+def r5_case_folding_changes_only_letters(ctx, rule="C17.R5"):
+    """`UCASE$ / LCASE$ change only letters`: the built-in either uses the whole-string ASCII fold of
+    the standard library, or a character function of its own - which is then evaluated on every
+    ASCII character and compared with the table the property states (letters to the other case,
+    everything else unchanged)."""
+    from .. import charpred
+    prog = ctx.prog
+    eng = charpred.engine(prog)
+    want = {"LCase": lambda c: c + 32 if 65 <= c <= 90 else c, "UCase": lambda c: c - 32 if 97 <= c <= 122 else c}
+    std_ok = {"LCase": ("to_ascii_lowercase", "to_lowercase"), "UCase": ("to_ascii_uppercase", "to_uppercase")}
+    found = {}
+    for f in prog.fns.values():
+        if f.crate != "rusty_basic" or f.kind == "closure":
+            continue
+        pv = None
+        for b, t in f.body.calls():
+            if (t.get("cpath") or "").split("::")[-1] != "set_built_in_function_result" or len(t["args"]) < 2:
+                continue
+            pv = pv or mir.Prov(f.body)
+            o = mir.strip_all(pv.of_operand(t["args"][1]))
+            txt = str(o)
+            for which in ("LCase", "UCase"):
+                if "BuiltInFunction::%s" % which in txt or (o[0] == "agg" and which in str(o[2:3])):
+                    found[which] = f
+    for which in ("LCase", "UCase"):
+        f = found.get(which)
+        if f is None:
+            raise CheckError("%s: built-in that sets the result of %s not found" % (rule, which))
+        fs = [f] + prog.closures_of(f)
+        names = {(t.get("cpath") or "").split("::")[-1] for g in fs for _b, t in g.body.calls()}
+        key = "%s:%s" % (rule, which)
+        if names & set(std_ok[which]):
+            ctx.ok(rule, key, f.loc, "whole-string fold of the standard library (%s)" % sorted(names & set(std_ok[which])))
+            continue
+        # a character function handed to an iterator adapter
+        cands = []
+        for g in fs:
+            for _b, t in g.body.calls():
+                for a in t["args"]:
+                    pr = charpred.pred_of_operand(prog, g, a)
+                    if pr is None:
+                        continue
+                    h = pr[1] if pr[0] in ("fn", "closure") else None
+                    if h is not None and h.body.locals[0]["ty"] == "char":
+                        cands.append(pr)
+        if not cands:
+            ctx.unknown(rule, key, f.loc, "neither the standard fold nor a character function found")
+            continue
+        diffs, undecided = [], []
+        for pr in cands:
+            h = pr[1]
+            for c in range(128):
+                arg = tf.K(c)
+                rs = eng.summary(h, (tf.TOP, arg) if pr[0] == "closure" else (arg,))
+                vals = {tf.deref(r)[1] for r in rs if tf.deref(r)[0] == "k"}
+                if len(vals) != 1 or len(rs) != len(vals):
+                    undecided.append(c)
+                elif vals != {want[which](c)}:
+                    diffs.append((c, sorted(vals)[0]))
+        if undecided and not diffs:
+            ctx.unknown(rule, key, f.loc, "character function not decided for codes %s" % undecided[:8])
+            continue
+        ctx.decide(not diffs, rule, key, f.loc, "128 characters map as stated",
+                   "%s$ changes characters that are not letters (or leaves letters): %s" % (
+                       which.upper(), ", ".join("CHR$(%d) `%s` -> CHR$(%d)" % (c, chr(c) if 32 <= c < 127 else "?", v)
+                                                for c, v in diffs[:8])))
+    ctx.require(rule, 2)
+
+
 def run(ctx):
     common.install(ctx)
     r1_accessors(ctx)
     r2_accessor_ranges(ctx)
     r3_substring_ranges(ctx)
     r4_val_sign(ctx)
+    r5_case_folding_changes_only_letters(ctx)
